@@ -352,8 +352,19 @@ func Replay(args []string) {
 	sample := fs.Int("sample", 200, "keep the trace of every n-th agreeing program (all differing ones are kept)")
 	muts := fs.Int("muts", 2, "0: no bracket mutations, 1: a seeded third of them, 2: all")
 	inputs := fs.String("inputs", "", "also write accepted programs as ndjson {input:[bytes]}")
+	probes := fs.String("probes", "", "case file of JsGrammar.tla holding the statement `a in b ;` (appended to programs as a probe for leaked parser state)")
 	fs.Parse(args)
 	cs := readCases(*cases)
+	var inProbe *tcase
+	if *probes != "" {
+		ps := readCases(*probes)
+		for i := range ps {
+			if t := ps[i].Toks; ps[i].Kind == "accept" && len(t) == 4 && t[1] == "in" && t[3] == ";" && isPoolName(t[0]) && isPoolName(t[2]) {
+				inProbe = &ps[i]
+				break
+			}
+		}
+	}
 	sum := summary{Suite: "jsgram", Mode: "replay", Cases: len(cs)}
 	w := tr.NewWriter(*out)
 	var inw *os.File
@@ -383,6 +394,48 @@ func Replay(args []string) {
 				}
 				seenSrc[key] = true
 				progs = append(progs, p)
+			}
+		}
+		// statement sequences: a derivable program that ends with an explicit ';' followed by another derivable program (spelled
+		// with other identifiers) is derivable, and its tree is the two trees one after the other -- parser state (the [In],
+		// [Return], [Yield], [Await] parameters, pending line breaks) must not leak from one statement into the next
+		for i := lo; i < hi; i += 3 {
+			a := &cs[i]
+			j := (i*7919 + 13) % len(cs)
+			b := &cs[j]
+			if a.Kind != "accept" || b.Kind != "accept" || len(a.Toks) == 0 || len(b.Toks) == 0 || a.Toks[len(a.Toks)-1] != ";" {
+				continue
+			}
+			if f := b.Toks[0]; strings.HasPrefix(f, "'") || strings.HasPrefix(f, "\"") || strings.HasPrefix(f, "<") {
+				continue // a string first would be a directive when alone and an expression statement here; markers
+			}
+			pa := expand(a, *seed, i, 0)[0]
+			pb := expand(b, *seed+1, j, 0)[0]
+			pp := prog{src: pa.src + "\n" + pb.src, kind: "accept", why: "sequence", canon: pa.canon + " " + pb.canon, canonw: pa.canonw + " " + pb.canonw,
+				ops: append(append([]string{}, pa.ops...), pb.ops...), ar: append(append([]int{}, pa.ar...), pb.ar...), nodes: pa.nodes + pb.nodes}
+			key := pp.kind + "\x00" + pp.src
+			if !seenSrc[key] {
+				seenSrc[key] = true
+				progs = append(progs, pp)
+			}
+		}
+		// probes after every derivable program that ends with ';': the statement `a in b;` stays derivable (the [In] parameter
+		// of a new statement does not depend on the statements before it)
+		for i := lo; i < hi && inProbe != nil; i++ {
+			a := &cs[i]
+			if a.Kind != "accept" || len(a.Toks) == 0 || a.Toks[len(a.Toks)-1] != ";" || len(a.Ops) < 3 {
+				continue
+			}
+			pa := expand(a, *seed, i, 0)[0]
+			pb := expand(inProbe, *seed+1, 0, 0)[0]
+			for _, pp := range []prog{
+				{src: pa.src + "\n" + pb.src, kind: "accept", why: "sequence:in-probe", canon: pa.canon + " " + pb.canon, canonw: pa.canonw + " " + pb.canonw, ops: pa.ops, ar: pa.ar, nodes: pa.nodes + 1},
+			} {
+				key := pp.kind + "\x00" + pp.src
+				if !seenSrc[key] {
+					seenSrc[key] = true
+					progs = append(progs, pp)
+				}
 			}
 		}
 		results := make([]result, len(progs))
